@@ -1042,6 +1042,20 @@ func (e fixEvaluator) ToCoeffs(res map[int]*rlwe.Ciphertext, index int) {
 	e.r.INTT(res[index].Value[1], res[index].Value[1])
 }
 
+// ITERACC control: every iteration scales by its own precision only
+type iterParams struct{ BootstrappingPrecision []float64 }
+
+func refineAll(it iterParams) []*big.Int {
+	var res []*big.Int
+	for i := 0; i < len(it.BootstrappingPrecision); i++ {
+		logPrec := it.BootstrappingPrecision[i]
+		prec := new(big.Int)
+		new(big.Float).SetFloat64(math.Exp2(logPrec)).Int(prec)
+		res = append(res, prec)
+	}
+	return res
+}
+
 // INDEG control: the first two components of the input, whatever its degree
 func (e fixEvaluator) SumTwo(ctIn, opOut *rlwe.Ciphertext) {
 	e.r.Add(ctIn.Value[0], ctIn.Value[1], opOut.Value[0])
